@@ -34,6 +34,12 @@ THEOREMS = [
     (M, "C11.concat_witness", "concat on a real pair; two parts that both define group s1 cannot be compiled (concat does not renumber wildcards)"),
     (M, "C11.cache_never_stale", "_cached_re as explicit state: match/sub on the object = the stateless model and keep the cache equal to the regex of the CURRENT pattern/env/root; with_env, Matcher(m, env, root) and concat return objects with an EMPTY cache"),
     (M, "C11.cache_initially_empty", "a new matcher object has nothing cached"),
+    (M, "C11.match_sub_preserve_env", "matcher OBJECTS with the env dict as mutable state (heap of dicts): match / sub answer CMatcher.match / sub of the views and change nothing but the _cached_re of the matcher they are called on - every existing dict and every other object is untouched, whatever they answer"),
+    (M, "C11.with_env_copies_env", "with_env / Matcher(m, env, root) / concat create a NEW object with a NEW env dict (fresh address) holding the source's entries updated with the given ones, nothing cached, everything that existed untouched; the result is CMatcher.rebuild / concat of the source's view = what a fresh construction gives"),
+    (M, "C11.env_write_is_local", "no aliasing: a write to one matcher's env (what concat does to its result) is invisible through every other matcher - a derived matcher cannot change its source nor the source a derived one"),
+    (M, "C11.history_keeps_objects", "ANY history of non-writing calls (constructions, prefix, str, expand with missing variables, repr, ==, match, sub, with_env, re-rooted copies, concat; raising or not) keeps the store well formed and alias free, every object keeps its pattern / root / environment, every cache is the regex of its object's current state"),
+    (M, "C11.history_start", "the empty store satisfies the hypotheses of history_keeps_objects"),
+    (M, "C11.derived_after_history_is_fresh", "a matcher derived with with_env AFTER any such history is the one Matcher.rebuild computes from the source's ORIGINAL pattern and environment, with a new env dict and nothing cached"),
 ]
 PARTIAL = [
     "sub_roundtrip_star_partial / sub_roundtrip_backref_partial (a.sub(b, .) then b.sub(a, .) is the identity, both sides matched with the filled values) are proved for the "
@@ -54,7 +60,9 @@ LEVEL_TEXT = ("Lean 4 theorems over an executable transliteration of paths/match
               "variables incl. nested values and repetitions; completeness + uniqueness of the backtracking matcher on well separated fillings); Matcher/Pattern equality, "
               "concat and the regex cache (explicit state: derived matchers never inherit it) have theorems; beyond the proved classes: differential + construction-based testing: "
               "bounded-exhaustive pattern pairs (8 segment forms, <= 2/3 segments, all small fills), seeded random pairs of the "
-              "configuration grammar, operation sequences (warm-up, then with_env / re-rooted copy / concat, compared with a fresh matcher), file pairing by ProjectFiles on a real tree; "
+              "configuration grammar, operation sequences (warm-up, then with_env / re-rooted copy / concat, compared with a fresh matcher), HISTORIES on long-lived objects (partially bound source, "
+              "looking calls incl. the ones that raise inside a nested expansion, staged with_env / copies / concat, env writes; purity of every call + fresh-object differential), file pairing by ProjectFiles on a real tree "
+              "(also with the locale bound by ProjectFiles after the configuration's matchers were looked at); "
               "the model is tied to the Python by structural equality of the generated regex AST and by equal results on every case")
 LEVEL_NOTE = ("the round-trip theorem is proved for a restricted class only (see partial); trusted: Lean kernel, hand-written model validated by correspondence, "
               "re.escape/re.compile identity checked structurally on every run; hypotheses with negation witnesses: "
@@ -64,6 +72,7 @@ TRUSTED = [
     "hand-written model CLModel/Paths/Matcher.lean of PatternParser, Pattern/Node.expand/regex_pattern, Matcher.match/sub/prefix (tied by the pm.* correspondence)",
     "`re.escape(s)` followed by `re.compile` = the literal characters of s; group names <-> group numbers (both checked on every run: the model's regex AST must equal the parse of the real `_cached_re.pattern`)",
     "regexes, regex fragments (f-string parts of regex_pattern) and the Android tables are regenerated from /repo by the translator on every run",
+    "hand-written model CLModel/Paths/MatcherObj.lean of matcher OBJECTS (heap of env dicts, _no_cycle = env.copy() + pop, Variable.expand / Pattern.expand / regex_pattern in heap-passing style, prefix / str / repr / == / match / sub / copy constructor / concat / env write as store operations), tied by the c12.hist stream: result of every call AND the snapshot of every object after every call",
     "hand-written model CLModel/Paths/MatcherX.lean of Matcher.__eq__/__ne__, Pattern/node __eq__, concat, Matcher(matcher, env, root), expand(), the encoding branches and the regex cache as state (tied by the c12.eq / c12.concat / c12.rebuild / c12.expand / c12.enc / c12.seq streams)",
 ]
 ASSUMPTIONS = [
@@ -407,6 +416,12 @@ def replay(payload):
         if v.get("op") == "derive":
             res.append(replay_derive(i))
             continue
+        if v.get("op") == "history":
+            res.append(replay_history(i))
+            continue
+        if v.get("op") == "pairing":
+            res.append(replay_pairing(i))
+            continue
         if v.get("op") == "foreign":
             rs = pool.pmap("impl.matcher", "impl_sub", [[{"a": i["a"], "b": i["b"], "paths": i["paths"]}]], timeout=10.0)[0]
             raw = rs["r"]["raw"] if "r" in rs else None
@@ -649,6 +664,7 @@ def run(ctx):
     run_separator_probe(ctx, out)
     run_round4(ctx, out, ctx.rng("c11", "r4"))
     run_pairing(ctx, out, ctx.n(700, 6000), ctx.rng("c11", "pairing"))
+    run_history(ctx, out, ctx.n(1200, 12000), ctx.rng("c11", "history"))
     return out
 
 
@@ -1398,6 +1414,20 @@ def run_pairing(ctx, out, n, rng):
         if not isinstance(locale, str) or "{" in locale:
             continue
         env["locale"] = locale
+        # round 5: the l10n side in the configuration idiom ({l} = "{l10n_base}/{locale}"), the locale NOT in the configuration's
+        # variables (ProjectFiles binds it per locale), and calls that only look at the configuration's matchers before that
+        late, warm = False, []
+        ra = G.reachable_vars(a)
+        a_needs_locale = "locale" in ra[0] + ra[1] or any(x[0] == "a" for x in a.atoms())
+        if rng.random() < 0.6 and not a_needs_locale:
+            if "l" not in env and "l10n_base" not in env and rng.random() < 0.7:
+                b2 = clone(b)
+                b2.segs.insert(0, [("v", "l")])
+                b2.env = dict(env, l="{l10n_base}/{locale}", l10n_base=rng.choice(["l10n-central", "l10n/x"]))
+                if not dup_groups(b2.spec()):
+                    b, env = b2, dict(b2.env)
+            late = True
+            warm = rng.sample(["prefix", "str", "repr", "expand", "eq", "other-locale"], rng.choice([1, 2, 3]))
         for sd in (a, b):
             sd.env, sd.withenv, sd.root = dict(env), None, None
         if any(sp for sp in (a.spec(), b.spec()) if dup_groups(sp) or first_not_expandable(dict(sp, root="/t"))):
@@ -1441,36 +1471,41 @@ def run_pairing(ctx, out, n, rng):
             continue
         files = [paths[0][1], paths[0][2], paths[1][1], paths[2][2]]
         exp = sorted([[paths[0][2], paths[0][1]], [paths[1][2], paths[1][1]], [paths[2][2], paths[2][1]]])
-        jobs.append((a, b, env, locale, files, exp, paths))
-    cases = [{"ref": a.pattern(), "l10n": b.pattern(), "env": sorted(env.items()), "locale": loc, "files": files}
-             for a, b, env, loc, files, exp, paths in jobs]
+        jobs.append((a, b, env, locale, files, exp, paths, late, warm))
+    cases = [{"ref": a.pattern(), "l10n": b.pattern(), "env": sorted(env.items()), "locale": loc, "files": files,
+              "late_locale": late, "warm": warm, "other_locale": "zz" if loc != "zz" else "yy"}
+             for a, b, env, loc, files, exp, paths, late, warm in jobs]
     res = pool.pmap("impl.matcher", "impl_pairing", [[c] for c in cases], timeout=10.0)
     lines = []
-    for (a, b, env, loc, files, exp, paths), c in zip(jobs, cases):
+    for (a, b, env, loc, files, exp, paths, late, warm), c in zip(jobs, cases):
         sa = {"pat": c["ref"], "env": c["env"], "root": None, "with": None}
         sb = {"pat": c["l10n"], "env": c["env"], "root": None, "with": None}
         lines.append("pm.sub " + G.margs(sa) + " " + G.margs(sb) + G.paths_arg([p[1] for p in paths]))
     model = C.run_driver_parallel(lines) if ctx.model_ok else [None] * len(lines)
-    for (a, b, env, loc, files, exp, paths), case, r, mo in zip(jobs, cases, res, model):
+    for (a, b, env, loc, files, exp, paths, late, warm), case, r, mo in zip(jobs, cases, res, model):
         out.evaluations += 1
         inp = dict(case)
-        inp["class"] = "pairing"
+        inp["class"] = "pairing" + (".history" if late else "")
+        inp["expected"] = {"listed": exp, "pairs": [[p[2], p[1]] for p in paths]}
         if "r" not in r:
-            out.violations.append({"what": "ProjectFiles on a one-rule project raised %s %s" % (r.get("exc"), r.get("msg")), "input": inp,
-                                   "op": "pairing", "finding": None})
+            out.violations.append({"what": "ProjectFiles on a one-rule project raised %s %s%s" % (
+                r.get("exc"), r.get("msg"),
+                (" (configuration without `locale`; before ProjectFiles(%r): %s on the configuration's matchers)" % (loc, ", ".join(warm))) if late else ""),
+                "input": inp, "op": "pairing", "finding": None})
             continue
         rr = r["r"]
         bad = []
+        how = (" (configuration without `locale`; before ProjectFiles(%r): %s on the configuration's matchers)" % (loc, ", ".join(warm))) if late else ""
         if rr["listed"] != exp:
             both = paths[0]
             extra = ""
             got_l = [x[0] for x in rr["listed"]]
             if got_l.count(both[2]) != 1 or [both[2], both[1]] not in rr["listed"]:
                 extra = " (the file present on both sides is not one entry with both paths)"
-            bad.append("ProjectFiles lists %r, expected the pairs by filling %r%s" % (rr["listed"], exp, extra))
+            bad.append("ProjectFiles lists %r, expected the pairs by filling %r%s%s" % (rr["listed"], exp, extra, how))
         exp_look = [[paths[0][2], paths[0][1]], [paths[0][2], paths[0][1]], [paths[1][2], paths[1][1]], [paths[2][2], paths[2][1]]]
         if rr["lookups"] != exp_look:
-            bad.append("ProjectFiles.match of %r gives %r, expected %r" % (files, rr["lookups"], exp_look))
+            bad.append("ProjectFiles.match of %r gives %r, expected %r%s" % (files, rr["lookups"], exp_look, how))
         if bad:
             for w in bad[:2]:
                 out.violations.append({"what": w, "input": inp, "op": "pairing", "finding": None})
@@ -1481,6 +1516,527 @@ def run_pairing(ctx, out, n, rng):
             out.disagreements.append({"op": "pm.sub(pairing)", "input": inp, "impl": canon, "model": mo})
         out.nontrivial.add(("pairing", case["ref"], case["l10n"], tuple(files)))
         out.count("pairing.cases")
+        if late:
+            out.count("pairing.locale-bound-by-ProjectFiles")
+            for w in warm:
+                out.count("pairing.warm." + w)
     if jobs and len(out.samples) < 12:
         out.samples.append({"class": "pairing", "reference": cases[0]["ref"], "l10n": cases[0]["l10n"], "files": cases[0]["files"],
                             "pairs": res[0].get("r", {}).get("listed")})
+
+
+# ====================================================================== round 5: HISTORIES on long-lived matcher objects.
+# The unit of generation is a history on one store of matcher objects: a source built with only PART of its variables
+# (the usual configuration idiom: `l = "{l10n_base}/{locale}/"`, the locale bound last), calls that only LOOK at it
+# (prefix, str, repr, expand with raise_missing, ==, match, sub: the ones that raise or stop early inside a nested
+# expansion), then with_env / re-rooted copy / concat in one or two stages, calls on the intermediate objects, a second
+# derivation from the same source, and a write to the environment of a derived object.
+# Oracle (independent of the model, does not depend on the earlier calls):
+#   * purity: after every call the observable state (entries of the env dict, pattern nodes, root, prefix_length) of EVERY
+#     object is what it was before the call, except for the one object a write is aimed at; only match/sub may fill the cache
+#     of the matcher they are called on, and a filled cache holds the regex a matcher built afresh compiles;
+#   * every looking call answers what the same call answers on objects built FRESH from the operands' current pattern text,
+#     variables and root; a derived object has the state of a matcher built afresh from ITS pattern text, variables and root;
+#   * on fully bound objects the answers known by construction (groups of the filled path, prefix, sub there and back,
+#     no match for another locale's file unless the glob reference allows it).
+QUIET = "PSXRQMU"
+
+
+def _h_spec(sd, raw_root):
+    return {"pat": sd.pattern(), "env": sorted(sd.env.items()), "root": raw_root, "with": None}
+
+
+def _closed(sd):
+    """every variable the expansion of the pattern reaches is bound"""
+    seen, todo = set(), [a[1] for a in sd.atoms() if a[0] == "v"]
+    if any(a[0] == "a" for a in sd.atoms()):
+        todo.append("locale")
+    while todo:
+        n = todo.pop()
+        if n in seen:
+            continue
+        seen.add(n)
+        if n not in sd.env:
+            return False
+        todo.extend(m.group(1) for m in _TOK.finditer(sd.env[n]) if m.group(1) and m.group(1) != "android_locale")
+    return True
+
+
+def gen_history(rng):
+    for _ in range(60):
+        a, b, fills = G.gen_pair(rng)
+        for sd in (a, b):
+            sd.env, sd.withenv = sd.full_env(), None
+        if G.first_is_wildcard(a) or G.first_is_wildcard(b):
+            continue
+        # the configuration idiom: a variable used at top level whose value needs variables that are bound LATER
+        r = rng.random()
+        if r < 0.65 and "l" not in a.env and "locale" not in [x[1] for x in a.atoms() if x[0] == "v"]:
+            if rng.random() < 0.5:
+                a.segs.insert(0, [("v", "l"), ("t", rng.choice(["browser", "toolkit", "x"]))])
+                a.env["l"] = rng.choice(["{l10n_base}/{locale}/", "{ l10n_base }/{locale}/", "{l10n_base}/x-{locale}/"])
+                a.env.setdefault("l10n_base", rng.choice(["/abs/l10n", "l10n-central", "rel/dir"]))
+            else:
+                a.segs.insert(rng.randrange(len(a.segs)), [("v", "l")])
+                a.env["l"] = rng.choice(["l10n/{locale}", "{locale}", "x-{ locale }-y", "{m}/q"])
+                if "{m}" in a.env["l"]:
+                    if "m" in a.env:
+                        continue
+                    a.env["m"] = "{locale}.d"
+            a.env.setdefault("locale", rng.choice(G.LOCALES))
+            if G.first_is_wildcard(a):
+                continue
+        if any(dup_groups(sd.spec()) or first_not_expandable(sd.spec()) for sd in (a, b)):
+            continue
+        if not _closed(a) or not _closed(b) or not locale_ok(a) or not locale_ok(b):
+            continue
+        full = dict(a.env)
+        direct, indirect = G.reachable_vars(a)
+        leaves = [k for k in sorted(full) if "{" not in full[k] and k != "B"]
+        first = a.atoms()[0] if a.atoms() else None
+        if a.root is not None and first is not None and first[0] == "v":
+            leaves = [k for k in leaves if k != first[1]]       # (rooted + unbound first variable is F11)
+        if a.root is not None and first is not None and first[0] == "a":
+            leaves = [k for k in leaves if k != "locale"]
+        ind = [k for k in leaves if k in indirect or (k == "locale" and any(x[0] == "a" for x in a.atoms()))]
+        hold = []
+        if leaves and rng.random() < 0.85:
+            pool_ = ind if (ind and rng.random() < 0.8) else leaves
+            hold = rng.sample(pool_, min(len(pool_), rng.choice([1, 1, 2])))
+        cwd = rng.choice(MG.CWDS)
+        try:
+            fl = b.normalize_fills(a.normalize_fills(dict(fills)))
+            pa_full, pb = a.fill(fl), b.fill(fl)
+        except (AssertionError, KeyError, ValueError):
+            continue
+
+        # ---- the program
+        ops, sides, roots, tainted = [], [], [], set()
+
+        def new_obj(sd, raw_root):
+            sides.append(sd)
+            roots.append(raw_root)
+            return len(sides) - 1
+
+        def spec(i):
+            return _h_spec(sides[i], roots[i])
+
+        def good(i):
+            sp = spec(i)
+            return _closed(sides[i]) and locale_ok(sides[i]) and not dup_groups(sp) and not first_not_expandable(sp)
+
+        def own_path(i):
+            return sides[i].fill(sides[i].normalize_fills(dict(fl)))
+
+        def paths_pool(i):
+            ps = [pa_full, pb, pa_full + "x"]
+            for j in range(len(sides)):
+                if good(j):
+                    try:
+                        ps.append(own_path(j))
+                    except (AssertionError, KeyError, ValueError):
+                        pass
+            return ps
+
+        def quiet(i, kinds=QUIET):
+            k = rng.choice(kinds)
+            op = {"op": k, "o": i}
+            if k == "Q":
+                op["o2"] = rng.randrange(len(sides))
+            elif k == "M":
+                op["path"] = rng.choice(paths_pool(i))
+            elif k == "U":
+                op["o2"] = rng.choice([j for j in range(len(sides)) if j != i] or [i])
+                op["path"] = rng.choice(paths_pool(i))
+            if k in "MU" and i in tainted:
+                op["op"], op = "P", {"op": "P", "o": i}
+            annotate(op)
+            ops.append(op)
+
+        def annotate(op):
+            """what is known by construction about the answer"""
+            i = op["o"]
+            if not good(i):
+                return
+            sd = sides[i]
+            try:
+                if op["op"] == "P":
+                    op["exp"] = sd.fill(dict(fl), upto_first_wildcard=True)
+                elif op["op"] == "M":
+                    if op["path"] == own_path(i):
+                        op["exp"] = sd.expected_groups(sd.normalize_fills(dict(fl)))
+                    elif not G.ref_match(sd.tokens(), op["path"]):
+                        op["exp_none"] = True
+                elif op["op"] == "U":
+                    j = op["o2"]
+                    if op["path"] == own_path(i) and good(j) and _same_wild(sd, sides[j]):
+                        op["exp"] = own_path(j)
+                    elif not G.ref_match(sd.tokens(), op["path"]):
+                        op["exp_none"] = True
+            except (AssertionError, KeyError, ValueError):
+                op.pop("exp", None)
+
+        def derive(src, over, root=None, concat=None):
+            """-> index of the new object, or None when the step is not possible"""
+            e = clone(sides[src])
+            e.env = dict(sides[src].env)
+            raw_root = roots[src]
+            if concat is None:
+                e.env.update(over)
+                if root is not None:
+                    raw_root = root
+                    e.root = abs_root(cwd, root)
+                j = new_obj(e, raw_root)
+                ops.append({"op": "E", "o": src, "root": root, "env": sorted(over.items()), "result": spec(j)})
+                return j
+            kind, t, tj = concat
+            if e.segs[-1][-1][0] == "d":
+                return None
+            e.segs = [list(s) for s in e.segs[:-1]] + [list(e.segs[-1]) + list(t.segs[0])] + [list(s) for s in t.segs[1:]]
+            if kind == "CM":
+                e.env.update(t.env)
+            names = [m.group(1) for m in _TOK.finditer(e.pattern()) if m.group(0) != "*" and m.group(1) is not None]
+            if len(names) != len(set(names)):
+                return None
+            j = new_obj(e, raw_root)
+            ops.append({"op": "CT", "o": src, "text": t.pattern(), "result": spec(j)} if kind == "CT" else
+                       {"op": "CM", "o": src, "o2": tj, "result": spec(j)})
+            return j
+
+        def checks(i):
+            if not good(i):
+                quiet(i, "PSM")
+                return
+            try:
+                p = own_path(i)
+            except (AssertionError, KeyError, ValueError):
+                return
+            for op in ({"op": "M", "o": i, "path": p}, {"op": "P", "o": i}, {"op": "U", "o": i, "o2": 1, "path": p},
+                       {"op": "U", "o": 1, "o2": i, "path": pb}):
+                if i in tainted and op["op"] in "MU" and op["o"] == i:
+                    continue
+                annotate(op)
+                ops.append(op)
+
+        a0 = clone(a)
+        a0.env = {k: v for k, v in full.items() if k not in hold}
+        i0 = new_obj(a0, a.root)
+        ops.append({"op": "B", "spec": spec(i0)})
+        ib = new_obj(b, b.root)
+        ops.append({"op": "B", "spec": spec(ib)})
+        for _k in range(rng.choice([1, 2, 2, 3, 4])):
+            quiet(i0 if rng.random() < 0.85 else ib, "PPSSXRQMU")
+        # stages: the held variables are bound in one or two steps
+        groups = [hold] if (len(hold) < 2 or rng.random() < 0.5) else [hold[:1], hold[1:]]
+        if not hold:
+            groups = [[]]
+        cur = i0
+        ok = True
+        for gi, grp in enumerate(groups):
+            over = {k: full[k] for k in grp}
+            if rng.random() < 0.3:
+                for k in sorted(sides[cur].env):
+                    v = sides[cur].env[k]
+                    if "{" not in v and k not in ("locale", "B") and rng.random() < 0.4 and not v.startswith("/"):
+                        over[k] = rng.choice(["other", "n.w", "zz-1"])
+            kind = rng.choice(["with_env", "with_env", "with_env", "both", "concat+with_env", "with_env+root", "with_env+concat",
+                               "empty+with_env"])
+            for part in kind.split("+"):
+                nxt = None
+                if part == "with_env":
+                    nxt = derive(cur, over)
+                elif part == "empty":
+                    nxt = derive(cur, {})
+                elif part == "root":
+                    if not G.first_is_wildcard(sides[cur]) and not first_not_expandable(dict(spec(cur), root="/r")):
+                        nxt = derive(cur, {}, root=rng.choice(G.ROOTS[:6] + REL_ROOTS))
+                    else:
+                        continue
+                elif part == "both":
+                    if not first_not_expandable(dict(_h_spec(sides[cur], "/r"), env=sorted(dict(sides[cur].env, **over).items()))):
+                        nxt = derive(cur, over, root=rng.choice(G.ROOTS[:6] + REL_ROOTS))
+                    else:
+                        nxt = derive(cur, over)
+                else:
+                    t = plain_side(rng, 2)
+                    if rng.random() < 0.5:
+                        nxt = derive(cur, None, concat=("CT", _no_env(t), None))
+                    else:
+                        tj = new_obj(t, None)
+                        ops.append({"op": "B", "spec": spec(tj)})
+                        nxt = derive(cur, None, concat=("CM", t, tj))
+                    if nxt is None:
+                        continue
+                if nxt is None:
+                    ok = False
+                    break
+                for _k in range(rng.choice([0, 1, 1, 2])):
+                    quiet(rng.choice([i0, cur, nxt, nxt]), "PSXRQMU")
+                cur = nxt
+            if not ok:
+                break
+        if not ok:
+            continue
+        d = cur
+        checks(d)
+        # another locale's file: the derived matcher must not claim it (unless the glob reference allows it)
+        if good(d) and "locale" in sides[d].env and "{" not in sides[d].env["locale"]:
+            o = clone(sides[d])
+            o.env = dict(sides[d].env, locale=rng.choice([x for x in G.LOCALES if x != sides[d].env["locale"]]))
+            try:
+                if locale_ok(o):
+                    op = {"op": "M", "o": d, "path": o.fill(o.normalize_fills(dict(fl)))}
+                    annotate(op)
+                    ops.append(op)
+            except (AssertionError, KeyError, ValueError):
+                pass
+        # the source again, and a SECOND derivation from the same source (another locale, as ProjectFiles does per locale)
+        if rng.random() < 0.6:
+            quiet(i0, "PSXM")
+            over = {k: full[k] for k in hold}
+            if "locale" in over and rng.random() < 0.7:
+                over["locale"] = rng.choice([x for x in G.LOCALES if x != full["locale"]])
+            d2 = derive(i0, over)
+            if good(d2):
+                checks(d2)
+            checks(d)
+        # two concatenations on the same base: the base and the first result stay what they were
+        if rng.random() < 0.25:
+            for _k in range(2):
+                j = derive(d, None, concat=("CT", _no_env(plain_side(rng, 2)), None))
+                if j is not None:
+                    checks(j)
+            checks(d)
+        # a write to the environment of one object (what concat does to its result): no OTHER object may change, and the object
+        # itself answers by its new environment (preferably a variable used INSIDE a nested value, looked at before and after)
+        if rng.random() < 0.55:
+            tgt = rng.choice([d, d, i0] + [j for j in range(len(sides)) if j != ib])
+            env_t = sides[tgt].env
+            cand = [k for k in sorted(env_t) if "{" not in env_t[k] and k not in ("locale", "B") and not env_t[k].startswith("/")]
+            nested = [k for k in cand if k in G.reachable_vars(sides[tgt])[1]]
+            if nested and rng.random() < 0.7:
+                k = rng.choice(nested)
+            elif cand and rng.random() < 0.6:
+                k = rng.choice(cand)
+            else:
+                k = rng.choice(["zz", "extra"])
+            v = rng.choice(["written", "w.w", "q"])
+            quiet(tgt, "PS")
+            sides[tgt] = clone(sides[tgt])
+            sides[tgt].env = dict(env_t, **{k: v})
+            # (a matcher that has compiled its regex keeps it: nothing is demanded of its match/sub afterwards)
+            tainted.add(tgt)
+            ops.append({"op": "W", "o": tgt, "k": k, "v": v, "result": spec(tgt)})
+            quiet(tgt, "PS")
+            checks(tgt)
+            quiet(i0, "PSM")
+            d3 = derive(i0, {k2: full[k2] for k2 in hold})
+            checks(d3)
+            if tgt != d:
+                checks(d)
+        if len(ops) > 40:
+            continue
+        return {"cwd": cwd, "ops": ops, "hold": sorted(hold)}
+    return None
+
+
+def _no_env(t):
+    t = clone(t)
+    t.env = {}
+    return t
+
+
+def _same_wild(x, y):
+    return [a for a in x.atoms() if a[0] in "sd"] == [a for a in y.atoms() if a[0] in "sd"]
+
+
+def _hist_arg(case):
+    s = "c12.hist %s %d" % (C.enc(case["cwd"]), len(case["ops"]))
+    for op in case["ops"]:
+        k = op["op"]
+        if k == "B":
+            sp = op["spec"]
+            s += " B %s %s %d" % ("-" if sp["root"] is None else C.enc(sp["root"]), C.enc(sp["pat"]), len(sp["env"]))
+            for kk, v in sp["env"]:
+                s += " %s %s" % (C.enc(kk), C.enc(v))
+        elif k in "PSXR":
+            s += " %s %d" % (k, op["o"])
+        elif k == "Q":
+            s += " Q %d %d" % (op["o"], op["o2"])
+        elif k == "M":
+            s += " M %d %s" % (op["o"], C.enc(op["path"]))
+        elif k == "U":
+            s += " U %d %d %s" % (op["o"], op["o2"], C.enc(op["path"]))
+        elif k == "E":
+            s += " E %d %s %d" % (op["o"], "-" if op["root"] is None else C.enc(op["root"]), len(op["env"]))
+            for kk, v in op["env"]:
+                s += " %s %s" % (C.enc(kk), C.enc(v))
+        elif k == "CT":
+            s += " CT %d %s" % (op["o"], C.enc(op["text"]))
+        elif k == "CM":
+            s += " CM %d %d" % (op["o"], op["o2"])
+        elif k == "W":
+            s += " W %d %s %s" % (op["o"], C.enc(op["k"]), C.enc(op["v"]))
+    return s
+
+
+_OPNAME = {"P": "prefix", "S": "str()", "X": "pattern.expand(env, raise_missing=True)", "R": "repr()", "Q": "==", "M": "match",
+           "U": "sub", "E": "Matcher(m, env, root) / with_env", "CT": "concat(text)", "CM": "concat(matcher)", "B": "Matcher(...)",
+           "W": "env[k] = ..."}
+
+
+def _state(sn):
+    return (sn["pattern"], sn["root"], [tuple(kv) for kv in sn["env"]])
+
+
+def _same_answer(x, y):
+    if is_exc(x) or is_exc(y):
+        return is_exc(x) and is_exc(y) and x["exc"] == y["exc"]
+    return x == y
+
+
+def judge_history(case, steps):
+    """-> (list of (message, finding id or None), index of the first bad step or None)"""
+    prev = []
+    joined = set()          # results of concat and what is derived from them
+    for t, (op, st) in enumerate(zip(case["ops"], steps)):
+        k = op["op"]
+        bad = []
+        if st.get("stuck"):
+            return [("the history cannot go on at call %d (%s): an earlier derivation raised" % (t, _OPNAME[k]), None)], t
+        snaps = st["snap"]
+        call = "call %d, %s on object %s" % (t, _OPNAME[k], op.get("o", len(snaps) - 1))
+        # --- purity: every object that existed before the call
+        for i, before in enumerate(prev):
+            after = snaps[i]
+            if k == "W" and i == op["o"]:
+                continue
+            if _state(after) != _state(before):
+                lost = sorted(set(kv[0] for kv in before["env"]) - set(kv[0] for kv in after["env"]))
+                bad.append(("%s changed the state of matcher object %d (%r): variables %s -> %s%s, pattern %s"
+                            % (call, i, case["specs_text"][i] if i < len(case.get("specs_text", [])) else "?",
+                               [kv[0] for kv in before["env"]], [kv[0] for kv in after["env"]],
+                               " (lost: %s)" % ", ".join(lost) if lost else "",
+                               "unchanged" if after["pattern"] == before["pattern"] and after["root"] == before["root"] else "CHANGED"),
+                            None))
+            elif after["cached"] != before["cached"] and not (k in "MU" and i == op["o"] and after["cached"]):
+                bad.append(("%s changed whether object %d has a compiled regex (%s -> %s)" % (call, i, before["cached"], after["cached"]), None))
+        if st.get("cache_bad"):
+            bad.append(("%s: the regex cached by object(s) %s is not the one a matcher built afresh from the same pattern, variables and "
+                        "root compiles" % (call, st["cache_bad"]), None))
+        # --- derived objects
+        if k in ("E", "CT", "CM") and not is_exc(st.get("out")):
+            new = snaps[-1]
+            if st.get("same_object"):
+                bad.append(("%s returned an object that already exists (not a new matcher)" % call, None))
+            fr = st.get("fresh_state")
+            if isinstance(fr, dict) and "pattern" in fr:
+                # (concat appends the nodes of the other pattern: two adjacent literals are not merged as the parser would)
+                if k != "E" or op["o"] in joined:
+                    joined.add(len(snaps) - 1)
+                same = _state(new) == _state(fr) if len(snaps) - 1 not in joined else (new["root"], new["env"]) == (fr["root"], fr["env"])
+                if not same or new["cached"]:
+                    bad.append(("%s: the derived matcher has variables %r, root %r%s; a matcher built afresh from its pattern text %r, "
+                                "variables and root has variables %r, root %r"
+                                % (call, [kv[0] for kv in new["env"]], new["root"], " and a compiled regex" if new["cached"] else "",
+                                   op["result"]["pat"], [kv[0] for kv in fr["env"]], fr["root"]), None))
+            if len({sn["env_id"] for sn in snaps}) != len(snaps) and "alias" not in case:
+                case["alias"] = t           # (not demanded by itself: reported with the first consequence)
+        elif k in ("E", "CT", "CM", "B") and is_exc(st.get("out")):
+            bad.append(("%s raised %s" % (call, st["out"].get("exc")), finding_of_exc(st["out"], op.get("result") or op.get("spec"))))
+        # --- looking calls: the same answer as on fresh objects, and what is known by construction
+        if k in QUIET and not st.get("tainted"):
+            got = st["out"]
+            sp = case["ops_spec"][t] if "ops_spec" in case else None
+            if not _same_answer(got, st["fresh"]):
+                bad.append(("%s answers %r; the same call on matchers built afresh from the same pattern text, variables and root answers %r"
+                            % (call + (" with %r" % op["path"] if "path" in op else ""), got, st["fresh"]), finding_of_exc(got, sp)))
+            if "exp" in op and got != op["exp"]:
+                bad.append(("%s answers %r, expected by construction %r" % (call + (" with %r" % op["path"] if "path" in op else ""), got,
+                                                                           op["exp"]), finding_of_exc(got, sp)))
+            if op.get("exp_none") and got is not None:
+                bad.append(("%s answers %r for a path the pattern does not cover (glob reference), expected None"
+                            % (call + " with %r" % op["path"], got), finding_of_exc(got, sp)))
+        if bad:
+            return bad, t
+        prev = snaps
+    return [], None
+
+
+def _hist_specs(case):
+    """current spec (pattern text, variables, root) of the object each call is made on, and the text of every object"""
+    specs, per_op = [], []
+    for op in case["ops"]:
+        k = op["op"]
+        if k == "B":
+            specs.append(op["spec"])
+        elif k in ("E", "CT", "CM"):
+            specs.append(op["result"])
+        elif k == "W":
+            specs[op["o"]] = op["result"]
+        per_op.append(dict(specs[op["o"]]) if "o" in op and op["o"] < len(specs) else None)
+    case["ops_spec"] = per_op
+    case["specs_text"] = [sp["pat"] for sp in specs]
+
+
+def run_history(ctx, out, n, rng, cls="history"):
+    cases = [c for c in (gen_history(rng) for _ in range(n)) if c is not None]
+    res = pool.pmap("impl.matcher", "impl_history", [[{"cwd": c["cwd"], "ops": c["ops"]}] for c in cases], timeout=8.0)
+    lines = [_hist_arg(c) for c in cases]
+    model = C.run_driver_parallel(lines) if ctx.model_ok else [None] * len(lines)
+    shown = False
+    for case, r, mo in zip(cases, res, model):
+        out.evaluations += 1
+        inp = {"cwd": case["cwd"], "ops": case["ops"], "hold": case["hold"], "class": cls}
+        if "r" not in r:
+            out.violations.append({"what": "history: adapter failed: %s %s" % (r.get("exc"), r.get("msg")), "input": inp, "op": "history",
+                                   "finding": None})
+            continue
+        _hist_specs(case)
+        bad, t = judge_history(case, r["r"]["steps"])
+        if bad:
+            inp["first_bad_call"] = t
+            if "alias" in case:
+                inp["objects_share_an_env_dict_since_call"] = case["alias"]
+            for w, fid in bad[:2]:
+                out.violations.append({"what": w, "input": inp, "op": "history", "finding": fid})
+            out.count(cls + ".violations")
+            continue
+        if mo is not None and mo != r["r"]["canon"]:
+            ms, rs = mo.split(" || "), r["r"]["canon"].split(" || ")
+            at = next((i for i, (x, y) in enumerate(zip(ms, rs)) if x != y), min(len(ms), len(rs)))
+            out.disagreements.append({"op": "c12.hist", "input": inp, "first_difference_at_call": at,
+                                      "impl": rs[at] if at < len(rs) else None, "model": ms[at] if at < len(ms) else None})
+        kinds = "".join(sorted({op["op"][0] for op in case["ops"]}))
+        out.nontrivial.add(("history", case["ops"][0]["spec"]["pat"], json_key([{k: v for k, v in op.items() if k not in ("result", "exp")}
+                                                                               for op in case["ops"]])))
+        out.count("%s.cases" % cls)
+        out.count("%s.calls" % cls, len(case["ops"]))
+        out.count("%s.%s" % (cls, "partially-bound-source" if case["hold"] else "fully-bound-source"))
+        for op in case["ops"]:
+            out.count("%s.op.%s" % (cls, op["op"]))
+        if not shown and len(out.samples) < 14 and case["hold"]:
+            shown = True
+            out.samples.append({"class": cls, "source": case["ops"][0]["spec"], "bound later": case["hold"],
+                                "calls": [{k: v for k, v in op.items() if k not in ("result", "exp", "exp_none")} for op in case["ops"][:8]]})
+
+
+def replay_history(i):
+    case = {"cwd": i["cwd"], "ops": i["ops"]}
+    r = pool.pmap("impl.matcher", "impl_history", [[case]], timeout=20.0)[0]
+    if "r" not in r:
+        return {"input": i, "result": r, "violates": True}
+    _hist_specs(case)
+    bad, t = judge_history(case, r["r"]["steps"])
+    return {"input": i, "first_bad_call": t, "laws": [w for w, _ in bad], "violates": bool(bad)}
+
+
+def replay_pairing(i):
+    case = {k: i[k] for k in ("ref", "l10n", "env", "locale", "files", "late_locale", "warm", "other_locale") if k in i}
+    r = pool.pmap("impl.matcher", "impl_pairing", [[case]], timeout=20.0)[0]
+    if "r" not in r or "expected" not in i:
+        return {"input": i, "result": r, "violates": "r" not in r}
+    pairs = i["expected"]["pairs"]
+    exp_look = [pairs[0], pairs[0], pairs[1], pairs[2]]
+    bad = r["r"]["listed"] != i["expected"]["listed"] or r["r"]["lookups"] != exp_look
+    return {"input": i, "listed": r["r"]["listed"], "lookups": r["r"]["lookups"], "violates": bool(bad)}
